@@ -784,8 +784,16 @@ func genC14(tier, out string, sum *Summary) {
 		for _, e := range ops {
 			ref := search(e, docJ)
 			for _, k := range kindConvs {
-				if pi >= 16 && (k.name == "float64" || k.name == "float32") {
-					continue // quotients and sums of these pairs are not exactly representable in binary
+				if k.name == "float64" || k.name == "float32" {
+					// whole numbers below 2^53 whose quotient is next to an integer: floor division, sums and comparisons
+					// are exact in binary, the other operations are not
+					nearInt := pi >= 16 && pi < 22
+					if nearInt && !(e == "a // b" || e == "- a // b" || e == "a < b" || e == "a == b" || e == "a - b" || e == "a >= b" || e == "max([a, b])") {
+						continue
+					}
+					if pi >= 22 {
+						continue // quotients and sums of these pairs are not exactly representable in binary
+					}
 				}
 				va, oka := k.conv(json.Number(pr[0]))
 				vb, okb := k.conv(json.Number(pr[1]))
